@@ -38,15 +38,15 @@ out.append("")
 out.append("%d of %d mutants caught by their check's quick tier." % (caught, total))
 mut_table = "\n".join(out)
 
-out = ["| id | property | change | needs, to manifest | quick tier | mechanisms reported |", "|---|---|---|---|---|---|"]
+out = ["| id | property | change | needs, to manifest | at import | final quick tier | mechanisms reported |", "|---|---|---|---|---|---|---|"]
 for m in sorted(glob.glob(os.path.join(ROOT, "seeded", "*", "meta.json"))):
     meta = json.load(open(m))
     name = os.path.basename(os.path.dirname(m))
     chk = meta.get("validated", {}).get("checks", {})
     st = "; ".join("%s: %s" % (k, v["status"]) for k, v in chk.items())
     mech = ", ".join(next(iter(chk.values()))["mechanisms"][:3]) if chk else ""
-    out.append("| %s | %s | %s | %s | %s | %s |" % (name, meta["property"], meta["summary"][:260].replace("|", "\\|").replace("\n", " "),
-                                                  meta.get("needs", "")[:220].replace("|", "\\|").replace("\n", " "), st, mech.replace("|", "\\|")))
+    out.append("| %s | %s | %s | %s | %s | %s | %s |" % (name, meta["property"], meta["summary"][:260].replace("|", "\\|").replace("\n", " "),
+                                                  meta.get("needs", "")[:220].replace("|", "\\|").replace("\n", " "), meta.get("initial_status", ""), st, mech.replace("|", "\\|")))
 seed_table = "\n".join(out)
 
 out = ["| check | tier, seed | evaluations | distinct non-trivial | event counters | shards | configurations | wall (s) | verdict |", "|---|---|---|---|---|---|---|---|---|"]
